@@ -145,6 +145,16 @@ func derefPtr(t reflect.Type, v reflect.Value) (reflect.Type, reflect.Value, ref
 			v = v.Elem()
 			continue
 		}
+		// interface-typed members (e.g. elements of []any)
+		// are de-enveloped, then rechecked.
+		if v.IsValid() && v.Kind() == reflect.Interface {
+			if v = v.Elem(); v.IsValid() {
+				t = v.Type()
+			} else {
+				t = nil
+			}
+			continue
+		}
 		break
 	}
 	k = v.Kind()
